@@ -297,6 +297,30 @@ theorem levelStats_exact (maxDef maxRep : Nat) (page : List (Entry (List Nat))) 
   · intro l; rw [hd.2.1 l]; exact hcnt _ l
   · intro l; rw [hr.2.1 l]; exact hcnt _ l
 
+open PqModel.LevelStats in
+/-- The column index of an IN-MEMORY optional / repeated chunk (`nullableColumnIndex`, column_buffer.go) is exact:
+    for every well-formed level stream its `NullCount` is the number of entries without a value and its `NullPage`
+    holds exactly when the page has no value at all - at every max definition level, nulls at any level below it. -/
+theorem bufferIndex_exact (maxDef maxRep : Nat) (page : List (Entry (List Nat))) (hwf : ∀ e ∈ page, e.WF maxDef maxRep) :
+    bufferIndexNullCount false maxDef (page.map (·.dfn)) = page.countP (fun e => e.val.isNone) ∧
+    (bufferIndexNullPage false maxDef (page.map (·.dfn)) = true ↔ page.filterMap (·.val) = []) := by
+  have hc := count_dfn_eq_present maxDef maxRep page hwf
+  have hle : (page.map (·.dfn)).count maxDef ≤ (page.map (·.dfn)).length := List.count_le_length
+  simp only [bufferIndexNullCount, bufferIndexNullPage, countLevelsNotEqual, countLevelsEqual, List.length_map,
+    Bool.false_eq_true, if_false, beq_iff_eq] at *
+  refine ⟨by omega, ?_⟩
+  rw [← List.length_eq_zero_iff]
+  omega
+
+open PqModel.LevelStats in
+/-- The slip "count the entries at definition level 0" is NOT exact: an optional leaf in an optional group
+    (maxDef 2) with rows value / parent present, leaf null / parent null / parent present, leaf null has 3 nulls,
+    the slip counts 1; two rows with a present parent and a null leaf are a null page, the slip says 0 nulls and
+    not a null page. For maxDef 1 the two formulas coincide on well-formed streams, hence the need for nesting. -/
+theorem bufferIndex_levelZero_wrong :
+    bufferIndexNullCount true 2 [2, 1, 0, 1] = 1 ∧ bufferIndexNullCount false 2 [2, 1, 0, 1] = 3 ∧
+    bufferIndexNullPage true 2 [1, 1] = false ∧ bufferIndexNullPage false 2 [1, 1] = true := by decide
+
 -- a repeated optional string column, maxDef 2, maxRep 1: rows ["ab", null], [], ["c"]
 example : ∀ e ∈ ([⟨2, 0, some [97, 98]⟩, ⟨1, 1, none⟩, ⟨0, 0, none⟩, ⟨2, 0, some [99]⟩] : List (LevelStats.Entry (List Nat))),
     e.WF 2 1 := by
